@@ -64,7 +64,19 @@ def cfg_for(rng, k):
     c.digit_fields = 0.3
     c.basename_differs = 0.3
     c.extensible = k % 2 == 0
+    if k % 4 == 3:
+        c.digit_names = 0.4   # Cage2, Axle9: how a digit is split off in UPPER_SNAKE is the compiler's business, the prefix twin must agree with it
     return c
+
+
+def has_odd_names(root) -> bool:
+    """Type names with digits: how UPPER_SNAKE splits a digit off (`VALE_5`, `VEC3_AXIS_X`) is not fixed by the documentation, so constants
+    derived from them are compared case/underscore-normalised and no driver is written against a predicted spelling; the prefix twin
+    relation (prefix + the very name the un-prefixed twin declares) still holds exactly."""
+    return any(ch.isdigit() for g in root.all_files() for d in iter_defs(g) if isinstance(d, (Message, Enum, Alias)) for ch in d.name)
+
+
+ODD = [False]
 
 
 def without_prefix(root):
@@ -119,6 +131,9 @@ def worker(ctx):
                 continue
             res.case(gen.is_nontrivial(gen.schema_signature(root)), wit["schema"])
             res.sample({"schema": wit["schema"]}, 1)
+            ODD[0] = has_odd_names(root)
+            if ODD[0]:
+                res.count("cases_with_digit_bearing_type_names")
             if any(c_prefix(g) for g in files):
                 res.count("cases_with_prefix")
             # ---- files ---------------------------------------------------------------------------------
@@ -151,6 +166,44 @@ def worker(ctx):
                     fb = struct_fields(open(os.path.join(tod, f"{g.basename}_bp.h")).read())
                     if {k[len(P):] if k.startswith(P) else k: v for k, v in fa.items()} != fb:
                         res.violation("prefix-changes-fields", f"struct members differ with/without prefix in {g.basename}_bp.h", {**wit, "with": fa, "without": fb})
+                    # the prefix goes IN FRONT and changes nothing else: every name of the prefixed header is the prefix plus the name the
+                    # un-prefixed twin declares - whatever the spelling rules for digits and capitals in the name part are
+                    if c_prefix(g):
+                        UPg = refnames.upper_prefix(g)
+                        na, nb = h_names(open(os.path.join(od, f"{g.basename}_bp.h")).read()), h_names(open(os.path.join(tod, f"{g.basename}_bp.h")).read())
+                        for kind in ("struct", "typedef"):
+                            exp = {P + n for n in nb[kind]}
+                            res.count("prefix_twin_name_sets_compared")
+                            if na[kind] != exp:
+                                res.violation("prefix-respells-name:" + kind, f"{g.basename}_bp.h: with c.name_prefix {c_prefix(g)!r} the {kind} names are not prefix + un-prefixed name: "
+                                              f"{sorted(na[kind] ^ exp)[:6]}", {**wit, "with": sorted(na[kind]), "without": sorted(nb[kind])})
+                        fexp = {re.sub(r"^(Encode|Decode|Json)", lambda mm: mm.group(1) + P, n) for n in nb["function"] if not INFRA_C.match(n)}
+                        fgot = {n for n in na["function"] if not INFRA_C.match(n)}
+                        res.count("prefix_twin_name_sets_compared")
+                        if fgot != fexp:
+                            res.violation("prefix-respells-name:function", f"{g.basename}_bp.h: function names with prefix are not <Verb> + prefix + un-prefixed name: {sorted(fgot ^ fexp)[:6]}",
+                                          {**wit, "with": sorted(fgot), "without": sorted(nb["function"])})
+                        # (whether an underscore joins prefix and name is not fixed by the documentation: `DRONEUNSET` for a constant and
+                        #  `DRONE_COLOR_RED` for an enum member both carry the upper-case prefix in front; the NAME part must be untouched)
+                        mwithout = {n for n in nb["macro"] if not INFRA_C.match(n)}
+                        mgot = {n for n in na["macro"] if not INFRA_C.match(n)}
+                        unmatched = set(mgot)
+                        missing = []
+                        for n in sorted(mwithout):
+                            head, rest = ("BYTES_LENGTH_", n[len("BYTES_LENGTH_"):]) if n.startswith("BYTES_LENGTH_") else ("", n)
+                            cands = {head + UPg + rest, head + UPg + "_" + rest, head + UPg.rstrip("_") + "_" + rest}
+                            hit = cands & unmatched
+                            if hit:
+                                unmatched -= hit
+                            else:
+                                missing.append(n)
+                        res.count("prefix_twin_name_sets_compared")
+                        if missing or unmatched:
+                            res.violation("prefix-respells-name:macro", f"{g.basename}_bp.h: with c.name_prefix {c_prefix(g)!r} these macros are not the upper-case prefix in front of the "
+                                          f"un-prefixed macro name: un-prefixed {missing[:5]} have no counterpart, prefixed {sorted(unmatched)[:5]} have no origin",
+                                          {**wit, "with": sorted(mgot), "without": sorted(mwithout)})
+                if ODD[0]:
+                    continue   # the programs below are written against predicted macro spellings
                 # layout and bytes through real builds
                 mh = f"{root.basename}_bp.h"
                 outs = []
@@ -216,6 +269,9 @@ def judge_c(ctx, g, d, mode, wit):
             res.violation("c-names:macro-without-prefix", f"{g.basename}_bp.h ({mode}): macros without the upper-case prefix {UP}: {bad[:5]}", w)
         if {refnames.norm(m) for m in macros} != want["macro_norm"]:
             res.violation("c-names:macro", f"{g.basename}_bp.h ({mode}): macros {sorted(macros)[:8]} differ from the documented scheme", {**w, "expected_normalised": sorted(want["macro_norm"])[:20]})
+    elif ODD[0]:
+        if {refnames.norm(m) for m in macros} != want["macro_norm"]:
+            res.violation("c-names:macro", f"{g.basename}_bp.h ({mode}): macros {sorted(macros)[:8]} differ from the documented scheme (normalised)", {**w, "expected_normalised": sorted(want["macro_norm"])[:20]})
     elif macros != want["macro"]:
         res.violation("c-names:macro", f"{g.basename}_bp.h ({mode}): macros {sorted(macros ^ want['macro'])[:6]} differ from the documented scheme", {**w, "declared": sorted(macros), "expected": sorted(want["macro"])})
     # exported symbols of the compiled object
@@ -251,7 +307,10 @@ def judge_go(ctx, g, d, wit):
     if not top_level <= others:
         res.violation("go-names:top-level-type", f"{g.basename}_bp.go: top-level enum/alias names must appear verbatim, missing {sorted(top_level - others)}", w)
     consts = {c.name for c in gf.consts}
-    if consts != want["const"] | want["size_const"]:
+    if ODD[0]:
+        if {refnames.norm(c) for c in consts} != {refnames.norm(c) for c in want["const"] | want["size_const"]}:
+            res.violation("go-names:const", f"{g.basename}_bp.go: constants {sorted(consts)[:8]} differ from the documented scheme (normalised)", w)
+    elif consts != want["const"] | want["size_const"]:
         res.violation("go-names:const", f"{g.basename}_bp.go: constants {sorted(consts ^ (want['const'] | want['size_const']))[:6]} differ from the documented scheme", w)
     for m in messages_of(g):
         tn = "".join(qualified_path(m))
@@ -319,5 +378,5 @@ if __name__ == "__main__":
               "twin, struct members, sizeof/offsetof and encoded bytes (real builds through drivers written against the documented names) unchanged"),
         assumptions=["vlib/refnames.py is my reading of docs/*-guide.rst and the statement; nested enum/alias names in Go are compared normalised (docs do not fix them)"],
         required_counters=["c_headers_checked", "c_symbol_tables_checked", "go_files_checked", "python_modules_checked", "python_classes_checked", "file_sets_checked",
-                           "cases_with_prefix", "prefix_twins_compared", "prefix_bytes_compared"],
+                           "cases_with_prefix", "prefix_twins_compared", "prefix_bytes_compared", "prefix_twin_name_sets_compared", "cases_with_digit_bearing_type_names"],
     )
